@@ -11,9 +11,10 @@ Lemma flat_seq_nil_l : forall r, flat_seq (FlatOk []) r = r.
 Proof. destruct r; reflexivity. Qed.
 
 Section Absorb.
+  Variable S : schema.
   Variable vars : list (bytes * json).
-  Notation mrel := (mrel vars).
-  Notation R := (R vars).
+  Notation mrel := (mrel S vars).
+  Notation R := (R S vars).
   Notation incl_of := (incl_of vars).
   Variables (a : option name) (n : name) (ds : list directive).
   Let k := response_name a n.
